@@ -594,7 +594,8 @@ def _job_split(a, c, env):
     seqs = [s for s in seqs if s][a["part"]::a["parts"]]
     if a["tier"] != "thorough":
         # quick: singles and pairs over the reduced alphabet
-        seqs = [s for s in seqs if all(k in REDUCED for k in s)]
+        # (+ zero-length frames that do not end the connection: their header is all there is to split)
+        seqs = [s for s in seqs if all(k in REDUCED or k in ("ping-empty", "text-empty") for k in s)]
         if a.get("light"):
             seqs = [s for s in seqs if len(s) == 1 or s[0] in ("text-frag-open-split-cp", "ping-125",
                                                                "cont-fin-close-cp", "close-empty")]
